@@ -175,6 +175,18 @@ Definition dst (s : sx) : st :=
   let s0 := init_st p (dmemsys (dnth s 3) m) (dicache (dnth s 4)) in
   fold_left (fun acc kv => rset acc (fst kv) (snd kv)) r s0.
 
+(** * five-stage pipeline *)
+From ArchSim Require Import Model.RVSplit Model.Pipe.
+Definition sx_latch (l : latch) : sx :=
+  match l with None => Lx [] | Some x => Lx [Zx (sl_addr x)] end.
+(* observation: architectural state fields (as sx_st) ++ [latch addresses; stalled] *)
+Definition sx_pstate (p : pstate) : sx :=
+  match sx_st (pst p) with
+  | Lx l => Lx (l ++ [sx_list sx_latch (lat p);
+                      match stalled p with None => Lx [] | Some (k, d) => sx_zs [k; d] end])
+  | x => x
+  end.
+
 (** * TOY *)
 From ArchSim Require Import Model.Toy.
 
